@@ -1809,7 +1809,7 @@ def make_world_externals(world_ref):
              squeeze=symaware('squeeze', alg.jnp_squeeze), expand_dims=symaware('expand_dims', alg.jnp_expand_dims),
              atleast_1d=symaware('atleast_1d', alg.jnp_atleast_1d),
              atleast_2d=symaware('atleast_2d', alg.jnp_atleast_2d),
-             repeat=symaware('repeat', alg.jnp_repeat), tile=symaware('tile', alg.jnp_tile),
+             repeat=symaware('repeat', alg.jnp_repeat), tile=symaware('tile', alg.jnp_tile), resize=symaware('resize', alg.jnp_resize),
              reshape=symaware('reshape', alg.jnp_reshape),
              ones_like=symaware('ones_like', alg.jnp_ones_like), zeros_like=symaware('zeros_like', alg.jnp_zeros_like),
              zeros=_jnp_filled_or_sym(0), ones=_jnp_filled_or_sym(1),
